@@ -880,3 +880,8 @@ def run(ctx: Ctx) -> None:
         _r103_104(ctx)
     with ctx.part():
         _r105(ctx)
+    with ctx.part():
+        # the correction accumulated for one syndrome is that call's own: nothing written by decode outlives the call
+        # (a dictionary kept on the decoder and cleared on some exits only leaks one decode into the next)
+        from .c06 import decoder_state_rule
+        decoder_state_rule(ctx, 'R10.2', ('SweepDecoder3D', 'RotatedSweepDecoder3D'))
